@@ -426,19 +426,38 @@ def error_text(ctx):
                 if oe["some"] is not None and not (oe["bind"] is not None and is_local(psanorm.tail_value(oe["some"]), oe["bind"])):
                     sources.append("?")
                 return
+            e = psanorm.tail_value(e)
+            if peel(e).get("k") == "blockexpr":
+                blk = peel(e)["b"]
+                if "tail" in blk:
+                    prov(blk["tail"], depth + 1)
+                    return
             b, ms = chain(e)
-            names.extend(m_[0] for m_ in ms)
             for m_ in ms:
+                cl = resolve(m_[1][0]) if len(m_[1]) == 1 else {}
+                if m_[0] in ("map", "and_then") and cl.get("k") == "closure" and len(cl.get("params", [])) == 1:
+                    # `reply.strip_prefix(..).map(|rest| ..)`: the value is the closure's, whose parameter stands for the receiver
+                    prov(cl["body"], depth + 1)
+                    continue
+                names.append(m_[0])
                 for a_ in m_[1]:
                     if peel(a_).get("k") not in ("lit",):
                         prov(a_, depth + 1)
             b = peel(b)
             if b.get("k") == "local":
-                d = defs.get(b["id"])
+                d = defs.get(b["id"]) or defs.get(canon(b["id"]))
                 if d and d[0] in ("let", "letexpr") and "init" in d[1]:
                     prov(d[1]["init"], depth + 1)
                 elif d and d[0] == "arm":
                     prov(d[1]["scrut"], depth + 1)
+                elif d and d[0] == "closure":
+                    par = ix.parent.get(id(d[1]))
+                    while par is not None and par.get("k") == "ref":
+                        par = ix.parent.get(id(par))
+                    if par is not None and par.get("k") == "mcall":
+                        prov(par["recv"], depth + 1)
+                    else:
+                        sources.append("?" + b["name"])
                 else:
                     sources.append("?" + b["name"])
             elif b.get("k") == "field":
